@@ -25,7 +25,7 @@ def run(ctx):
     for n in range(0, L + 1):
         for t in itertools.product(range(12), repeat=n): choice_lists.append(list(t))
     for _ in range(2500 if quick else 40000):
-        choice_lists.append([rng.randrange(0, 997) for _ in range(rng.choice([20, 40, 80, 160, 300]))])
+        choice_lists.append([rng.randrange(0, 997) for _ in range(rng.choice([40, 80, 160, 400, 1000, 2000]))])
     if ctx.get('replay'):
         choice_lists = [json.load(open(ctx['replay']))['choices']]
     cases = cases_for(choice_lists)
@@ -51,7 +51,7 @@ def run(ctx):
                                        first_difference=dict(at=k, got=i[max(0, k - 150):k + 250], expected=exp[max(0, k - 150):k + 250]),
                                        how='bashlex.parse(rendered) versus the tree Spec.roundTripCase (Lean) says this spelling denotes'))
     return dict(evaluations=len(cases), distinct_nontrivial=len(nontrivial),
-                rule='choice sequences: every vector of length <= %d over 0..11 (small trees, exhaustive) + %d seeded random vectors of 20..300 choices; each is turned by '
+                rule='choice sequences: every vector of length <= %d over 0..11 (small trees, exhaustive) + %d seeded random vectors of 40..2000 choices; each is turned by '
                      'Spec.roundTripCase (Lean) into an abstract tree (simple commands with assignments/redirections, pipelines with !, and/or/;/& lists, subshells, '
                      'groups, if/elif/else, while/until, for, case, functions; words mixing quoting styles, parameters, tildes, nested $( ) <( ) >( )), a spelling '
                      '(blank widths, tabs, ; versus newline, continuations and comments between tokens, reserved words as arguments) and the expected AST with spans' % (L, len(choice_lists)),
